@@ -456,6 +456,7 @@ func runC11Prog(p c11Prog, fireAt int, useCtx, track bool, limit string, recordA
 	select {
 	case <-done:
 	case <-hangAfter(60 * time.Second):
+		noteHang()
 		atomic.AddInt32(&c11Timeouts, 1)
 		res.res = "timeout"
 	}
@@ -777,6 +778,7 @@ func execC11Script(ops []Op) []string {
 	select {
 	case <-done:
 	case <-hangAfter(60 * time.Second):
+		noteHang()
 		return []string{"X timeout => " + line}
 	}
 	if strings.HasPrefix(res, "gopanic") {
